@@ -11,6 +11,7 @@ def handle (line : String) : String :=
   | ["spec", d] => specLine (unhex d)
   | "scan" :: f :: _ :: entries => scanLine (unhex f) entries
   | "recreateio" :: c :: rs :: ws :: _ :: entries => recreateIoLine (unhex c) rs ws entries
+  | ["estimate", d] => estimateLine (unhex d)
   | "analyze" :: rest => analyzeLine rest
   | "analyzefull" :: rest => analyzeFullLine rest
   | "codec" :: ops => (match parseOps ops with | some o => codecLine o | none => "bad-request")
